@@ -648,13 +648,8 @@ def rule_builder_effects(ctx: Ctx, out: Collector) -> None:
 
 def rule_node_map_and_validation(ctx: Ctx, out: Collector) -> None:
     """BD-6, VL-4 (VL-1, VL-2 and VL-6 are decided over builder worlds: bw.rule_reachability)."""
-    trav = _traverse_function(ctx)
-    loop, mark_var, kw_var, br = _branches(ctx, trav)
-    cur = _current_node_var(trav)
     b = _builder_class(ctx)
-    base = f'{trav.module.name}::{trav.qualname}'
-    marks = _mark_classes(ctx)
-    # ---- BD-6: build returns copies, popped node is mapped
+    # ---- BD-6: build returns copies
     build = b.methods['build']
     bsrc = unparse(build.node)
     cons = f'{build.module.name}::{build.qualname}::returns copies of graph and node map'
@@ -845,7 +840,8 @@ def _rejection_worlds(ctx: Ctx, found) -> Dict[str, Tuple[List[str], str]]:
             decided.append(f'{u.qualname}: check written in line, interpreted with the builder worlds (VL-8 / VL-9)')
             continue
         self_obj = None if (u.cls is None or u.is_static) else AObj(u.cls, {})
-        table = {'a value that is not a class': outcomes(u, ['not-a-class'], {}, self_obj, ext_cls),
+        not_a_class = sorted({x for v_ in ('not-a-class', None, 5) for x in outcomes(u, [v_], {}, self_obj, ext_cls)})
+        table = {'a value that is not a class': not_a_class,
                  'a class without the node base': outcomes(u, [nobase], {}, self_obj, ext_cls),
                  'a node class': outcomes(u, [good], {}, self_obj, ext_cls)}
         decided.append(f'{u.qualname}: {table}')
